@@ -32,29 +32,12 @@ verus! {
     }
 //@ end
 
-//@ extract struct Stream from src/classic/clvm/__type_compatibility__.rs
-//@ end
-// remaining bytes of the stream
-pub closed spec fn stream_wf(s: Stream) -> bool { s.length <= s.buffer@.len() }
-pub closed spec fn stream_rest(s: Stream) -> Seq<u8> {
-    if s.seek > s.length { Seq::<u8>::empty() } else { s.buffer@.subrange(s.seek as int, s.length as int) }
-}
-pub closed spec fn stream_seek(s: Stream) -> int { s.seek as int }
-pub closed spec fn stream_same_data(a: Stream, b: Stream) -> bool { a.length == b.length && a.buffer@ == b.buffer@ }
-
+//@ include units/inc/stream.rs
 impl Stream {
 //@ note Stream::read: returns min(size, remaining) bytes from the cursor and advances by that many; nothing else changes
 //@ extract fn read from src/classic/clvm/__type_compatibility__.rs in impl Stream
 //@ canary off_by_one @<self.buffer[self.seek + i]>@ => @<self.buffer[self.seek + i - (if i > 0 { 1 } else { 0 })]>@
-//@ sig r
-    requires stream_wf(*old(self)), stream_seek(*old(self)) + size <= usize::MAX
-    ensures
-        stream_wf(*final(self)), stream_same_data(*old(self), *final(self)),
-        ({ let rest = stream_rest(*old(self));
-           let n = if size <= rest.len() { size as int } else { rest.len() as int };
-           bv(r) == rest.subrange(0, n)
-           && stream_seek(*final(self)) == stream_seek(*old(self)) + n
-           && stream_rest(*final(self)) == rest.subrange(n, rest.len() as int) }),
+//@ sigfile r contracts/stream_read.sig
 //@ after stmt @<let mut u8>@
         let ghost s0 = *self;
 //@ loop 0
